@@ -8,7 +8,8 @@
    the other or an ancestor of it; [below p r] = the descendant of p reached by the steps r;
    [attrs e] = everything a node says about itself (all fields but its children and rpc input/output).
 
-   _partial = stated for less than the property says; what is missing is named at the theorem. *)
+   No theorem here is partial any more: the former exclusion of `delete` of an absent element bound (D45) is gone
+   with the presence flags in the model's list attributes. *)
 From Coq Require Import List NArith Bool.
 From GY Require Import Model.Schema Spec.C08 Proofs.DeviationStripProofs Proofs.DeviationProofs.
 From GY Require Spec.C04.
@@ -26,27 +27,26 @@ Theorem C08_T1_add_replace : forall (rep : bool) dv st,
   end.
 Proof. exact set_agree. Qed.
 
-(* one delete statement, outside the two excluded classes ([refused]: delete of a leaf-list default, which the
-   library declines with an error; [known_delete_absent_bound]: KNOWN_FINDINGS sig=delete.absent-bound) *)
-Theorem C08_T1_delete_partial : forall dv st,
-  kind_of (dv_kind dv) = Some DKDelete -> in_scope dv = true ->
-  refused st dv = false -> known_delete_absent_bound st dv = false ->
+(* one delete statement that is inside the claim ([in_scope]: no delete of units/type) and that the library
+   does not refuse ([refused]: delete of a leaf-list default, which it declines with an error) *)
+Theorem C08_T1_delete : forall dv st,
+  kind_of (dv_kind dv) = Some DKDelete -> in_scope dv = true -> refused st dv = false ->
   match spec_edits DKDelete st (named_props dv) with
   | Some st' => apply_delete dv (ts_node st) = (ts_node st', false) /\ step_rel st st'
   | None => snd (apply_delete dv (ts_node st)) = true
   end.
 Proof. exact del_agree. Qed.
 
-(* every list of deviate statements on a target that exists, in written order: same node, same
-   attached/removed verdict, same forest, same error verdict.  Hypotheses: sibling names are distinct where
-   the target hangs (holds in every forest Process builds: C08_T1_pass_partial below takes it from C04's tree
-   invariant), the option is not combined with a module root as target, and the run stays inside the claim
-   ([claimed]).  _partial because [claimed] excludes KNOWN_FINDINGS sig=delete.absent-bound. *)
-Theorem C08_T1_agreement_partial : forall ign F p cur dvs err hmin hmax,
+(* every list of deviate statements on a target that exists, in written order: same node (its min-/max-elements
+   presence flags included), same attached/removed verdict, same forest, same error verdict.  Hypotheses: sibling
+   names are distinct where the target hangs (holds in every forest Process builds: C08_T1_pass below takes it from
+   C04's tree invariant), the option is not combined with a module root as target, and the run stays inside the
+   claim ([claimed]: no delete of units/type, no delete of a leaf-list default). *)
+Theorem C08_T1_agreement : forall ign F p cur dvs err,
   locate_pos F p = Some cur ->
   parent_nodup F p -> (ign = true -> snd p <> []) ->
-  claimed is_builtin ign (removable p) (init_state cur hmin hmax) dvs = true ->
-  match spec_apply_all is_builtin ign (removable p) (init_state cur hmin hmax) dvs with
+  claimed is_builtin ign (removable p) (init_state cur) dvs = true ->
+  match spec_apply_all is_builtin ign (removable p) (init_state cur) dvs with
   | Some st' =>
       apply_deviates ign F p cur true err dvs =
         (if ts_removed st' then remove_target F p else F, ts_node st', negb (ts_removed st'), err)
@@ -56,17 +56,17 @@ Theorem C08_T1_agreement_partial : forall ign F p cur dvs err hmin hmax,
 Proof. exact deviates_agree_top. Qed.
 
 (* one deviation statement on a forest, and the deviations of a module in written order *)
-Theorem C08_T1_deviation_partial : forall SC ign F err m w d,
-  deviation_claimed SC ign F m w d ->
-  match spec_deviation SC ign F m w d with
+Theorem C08_T1_deviation : forall SC ign F err m d,
+  deviation_claimed SC ign F m d ->
+  match spec_deviation SC ign F m d with
   | Some F' => apply_deviations SC ign F err m [d] = (F', err) /\ existsb deviate_err (snd d) = false
   | None => snd (apply_deviations SC ign F err m [d]) = true \/ existsb deviate_err (snd d) = true
   end.
 Proof. exact deviation_agree. Qed.
 
-Theorem C08_T1_module_partial : forall SC ign m devs F err ws,
-  module_claimed SC ign F m ws devs ->
-  match spec_module SC ign F m ws devs with
+Theorem C08_T1_module : forall SC ign m devs F err,
+  module_claimed SC ign F m devs ->
+  match spec_module SC ign F m devs with
   | Some F' => apply_deviations SC ign F err m devs = (F', err) /\ any_deviate_err devs = false
   | None => snd (apply_deviations SC ign F err m devs) = true \/ any_deviate_err devs = true
   end.
@@ -75,9 +75,9 @@ Proof. exact module_agree. Qed.
 (* the whole deviation pass on a forest that satisfies the tree invariant of C04 (which the pass keeps): the
    hypotheses about sibling names are gone; what remains ([jobs_claimed]) is the claim itself and "the option is
    not combined with a module root as target", at every deviation in the forest of its moment *)
-Theorem C08_T1_pass_partial : forall SC ign s js F err ws,
-  C04.ForestInv s F -> jobs_claimed SC ign F js ws ->
-  match spec_pass SC ign F js ws with
+Theorem C08_T1_pass : forall SC ign s js F err,
+  C04.ForestInv s F -> jobs_claimed SC ign F js ->
+  match spec_pass SC ign F js with
   | Some F' => run_jobs SC ign (F, err) js = (F', err) /\ jobs_deviate_err js = false
   | None => snd (run_jobs SC ign (F, err) js) = true \/ jobs_deviate_err js = true
   end.
@@ -86,11 +86,11 @@ Proof. exact jobs_agree. Qed.
 (* Process itself: if the modules WITHOUT their deviation statements yield F3, then Process with them returns
    exactly what the reference pass makes of F3 -- the forest it computes, or an error where it says "must be
    reported" *)
-Theorem C08_T1_process_partial : forall SC ic ign order F3 ws,
+Theorem C08_T1_process : forall SC ic ign order F3,
   existsb derr SC = false ->
   Process (strip_devs SC) ic ign order = ROk F3 ->
-  jobs_claimed SC ign F3 (jobs SC order) ws ->
-  Process SC ic ign order = match spec_pass SC ign F3 (jobs SC order) ws with Some F' => ROk F' | None => RErr end.
+  jobs_claimed SC ign F3 (jobs SC order) ->
+  Process SC ic ign order = match spec_pass SC ign F3 (jobs SC order) with Some F' => ROk F' | None => RErr end.
 Proof. exact Process_agrees_without. Qed.
 
 (* a statement the library cannot read is exactly one the reference rejects before looking at the target *)
@@ -280,11 +280,12 @@ Theorem C08_T4_delete_default_absent_or_different : forall cur dv d,
   step_errs cur dv = true.
 Proof. exact delete_default_mismatch_errs. Qed.
 
-Theorem C08_T4_delete_bound_different : forall cur dv,
+Theorem C08_T4_delete_bound_absent_or_different : forall cur dv,
   kind_of (dv_kind dv) = Some DKDelete ->
-  ((exists n, dv_min dv = Some n /\ min_of cur <> n) \/ (exists n, dv_max dv = Some n /\ max_of cur <> n)) ->
+  ((exists n, dv_min dv = Some n /\ (min_written cur = false \/ min_of cur <> n)) \/
+   (exists n, dv_max dv = Some n /\ (max_written cur = false \/ max_of cur <> n))) ->
   step_errs cur dv = true.
-Proof. exact delete_bound_different_errs. Qed.
+Proof. exact delete_bound_absent_or_different_errs. Qed.
 
 Theorem C08_T4_bounds_on_non_list : forall cur dv k,
   kind_of (dv_kind dv) = Some k -> k <> DKNotSupported ->
@@ -348,24 +349,23 @@ Definition devs1 := [(path_x, [dv_dflt s_delete [49]; dv_dflt s_add [50]]);
                      (path_m, [dv0 s_notsupported])].
 Definition SC1 := [mB; mD devs1].
 Definition F3_1 : forest := match pre_dev SC1 false order1 with Some (F, _) => F | None => [] end.
-Definition ws1 := [(false, false); (true, false); (false, false)].
 Definition leaf_x (d : str) : entry := Entry [120] KLeaf TSUnset TSUnset [d] [] (Some t_string) [] None None None None.
 Definition leaf_k : entry := Entry [107] KLeaf TSUnset TSUnset [] [] (Some t_string) [] None None None None.
-Definition dirE (n : str) (la : option (N * N)) (key : str) (d : list (str * entry)) : entry :=
+Definition dirE (n : str) (la : option (N * N * (bool * bool))) (key : str) (d : list (str * entry)) : entry :=
   Entry n KDir TSUnset TSUnset [] [] None key la None (Some d) None.
 Definition F4_1 : forest :=
   [([98], dirE [98] None []
-            [([99], dirE [99] None [] [([120], leaf_x [50]); ([108], dirE [108] (Some (2, 9)) [107] [([107], leaf_k)])]);
+            [([99], dirE [99] None [] [([120], leaf_x [50]); ([108], dirE [108] (Some (2, 9, (true, true))) [107] [([107], leaf_k)])]);
              ([101], dirE [101] None [] [([120], leaf_x [49])])]);
    ([100], dirE [100] None [] [])].
 
 Example C08_ex_process : Process SC1 false false order1 = ROk F4_1.
 Proof. vm_compute. reflexivity. Qed.
-Example C08_ex_spec_module : spec_module SC1 false F3_1 (mD devs1) ws1 devs1 = Some F4_1.
+Example C08_ex_spec_module : spec_module SC1 false F3_1 (mD devs1) devs1 = Some F4_1.
 Proof. vm_compute. reflexivity. Qed.
 
 (* the hypotheses of T1 are satisfiable: the whole run above is inside the claim *)
-Example C08_ex_module_claimed : module_claimed SC1 false F3_1 (mD devs1) ws1 devs1.
+Example C08_ex_module_claimed : module_claimed SC1 false F3_1 (mD devs1) devs1.
 Proof.
   unfold module_claimed, deviation_claimed, parent_nodup.
   vm_compute.
@@ -373,9 +373,9 @@ Proof.
     try (intros pe d H1 H2; inversion H1; subst; inversion H2; subst;
          repeat constructor; cbn; intuition discriminate).
 Qed.
-Example C08_ex_jobs_claimed : jobs_claimed SC1 false F3_1 (jobs SC1 order1) ws1.
+Example C08_ex_jobs_claimed : jobs_claimed SC1 false F3_1 (jobs SC1 order1).
 Proof. unfold jobs_claimed, job_claimed. vm_compute. repeat split; discriminate. Qed.
-Example C08_ex_spec_pass : spec_pass SC1 false F3_1 (jobs SC1 order1) ws1 = Some F4_1.
+Example C08_ex_spec_pass : spec_pass SC1 false F3_1 (jobs SC1 order1) = Some F4_1.
 Proof. vm_compute. reflexivity. Qed.
 (* ... and F3_1 is what the modules yield without their deviation statements *)
 Example C08_ex_without : Process (strip_devs SC1) false false order1 = ROk F3_1 /\ existsb derr SC1 = false.
@@ -456,20 +456,26 @@ Example C08_ex_not_supported_twice :
   Process [mB; mD [(path_m, [dv0 s_notsupported; dv0 s_notsupported])]] false false order1 = RErr.
 Proof. vm_compute. reflexivity. Qed.
 
-(* the excluded classes are real: the list l has no max-elements statement, `delete max-elements unbounded`
-   is demanded to be an error by the reference and accepted by the model (sig=delete.absent-bound) ... *)
-Definition list_l : entry := dirE [108] (Some (1, MaxUint64)) [107] [([107], leaf_k)].
-Example C08_ex_known_absent_bound :
-  known_delete_absent_bound (init_state list_l true false) (dv_mm s_delete None (Some MaxUint64)) = true /\
-  spec_deviate is_builtin false true (init_state list_l true false) (dv_mm s_delete None (Some MaxUint64)) = None /\
-  Process [mB; mD [(path_l, [dv_mm s_delete None (Some MaxUint64)])]] false false order1 <> RErr.
-Proof. vm_compute. repeat split. discriminate. Qed.
-(* ... and deleting the default of a leaf-list is refused by the model where the reference removes the value *)
+(* D45 (fixed): the list l has a min-elements but no max-elements statement; `delete max-elements unbounded` names
+   the value an absent statement stands for and must be reported -- reference and model agree, and deleting the
+   bound that IS written, with its value, is clean *)
+Definition list_l : entry := dirE [108] (Some (1, MaxUint64, (true, false))) [107] [([107], leaf_k)].
+Example C08_ex_delete_absent_bound :
+  locate_pos F3_1 ([98], [SChild [99]; SChild [108]]) = Some list_l /\
+  spec_deviate is_builtin false true (init_state list_l) (dv_mm s_delete None (Some MaxUint64)) = None /\
+  Process [mB; mD [(path_l, [dv_mm s_delete None (Some MaxUint64)])]] false false order1 = RErr /\
+  Process [mB; mD [(path_l, [dv_mm s_delete (Some 0) None])]] false false order1 = RErr /\
+  Process [mB; mD [(path_l, [dv_mm s_delete (Some 1) None])]] false false order1 <> RErr /\
+  (* a bound put there by an earlier deviate can be deleted *)
+  Process [mB; mD [(path_l, [dv_mm s_add None (Some 7); dv_mm s_delete None (Some 7)])]] false false order1 <> RErr.
+Proof. vm_compute. repeat split; discriminate. Qed.
+(* the one remaining exclusion is real: deleting the default of a leaf-list is refused by the model where the
+   reference removes the value *)
 Definition leaflist_m : entry :=
-  Entry [109] KLeaf TSUnset TSUnset [[49]] [] (Some t_string) [] (Some (0, MaxUint64)) None None None.
+  Entry [109] KLeaf TSUnset TSUnset [[49]] [] (Some t_string) [] (Some (0, MaxUint64, (false, false))) None None None.
 Example C08_ex_refused :
-  refused (init_state leaflist_m false false) (dv_dflt s_delete [49]) = true /\
+  refused (init_state leaflist_m) (dv_dflt s_delete [49]) = true /\
   option_map (fun st => e_dflt (ts_node st))
-             (spec_deviate is_builtin false true (init_state leaflist_m false false) (dv_dflt s_delete [49])) = Some [] /\
+             (spec_deviate is_builtin false true (init_state leaflist_m) (dv_dflt s_delete [49])) = Some [] /\
   Process [mB; mD [(path_m, [dv_dflt s_delete [49]])]] false false order1 = RErr.
 Proof. vm_compute. repeat split. Qed.
